@@ -284,7 +284,9 @@ class Trees(Profile):
             amb = pole if abs(abs(qlat) - 90.0) >= 1e-6 else np.ones_like(pole)
             dlat = np.abs(la - qa)
             lo_b = self._norm(np.stack([dlat, np.zeros_like(dlat)], axis=-1), metric)
-            hi_b = self._norm(np.stack([dlat, np.full_like(dlat, 2 * math.pi)], axis=-1), metric)
+            # the pole's stored longitude is arbitrary in [-pi, pi]; the query's may be anything the
+            # caller wrote (0..360 convention): the planar longitude difference can reach |q| + pi
+            hi_b = self._norm(np.stack([dlat, np.full_like(dlat, abs(qo) + math.pi + 1e-9)], axis=-1), metric)
             dl = np.where(amb, lo_b, dl)
             du = np.where(amb, hi_b, du)
         return dl, du
